@@ -21,7 +21,7 @@ from .common import Out, with_, drop_each, REAL_ALL, STUB_ALL
 ID = "C04"
 TIERS = {"quick": {"n": 6000, "chunk": 100}, "thorough": {"n": 60000, "chunk": 150, "wall_cap": 3300}}
 RULE = (
-    "stratum A (3 of 4 scenarios): 1-4 members drawn from 11 template families (fail on line K, fail_and_stop on a planted cell, fail.onmatch, error handled with/without 'fail', validation-mode fail/no-fail, and decoys: "
+    "stratum A (3 of 4 scenarios): 1-4 members drawn from 12 template families (fail on line K, fail_and_stop on a planted cell, fail.onmatch, error handled with/without 'fail', validation-mode fail/no-fail, and decoys: "
     "no() -> fail(), after stop(), after skip(), false left of '->', fail.onmatch on a rejected line) over a generated file, run standalone and by one of 7 run forms under a policy with or without 'fail'; "
     "stratum B: arbitrary generated programs under the secondary monitor. Non-trivial = some member's verdict event fired or a decoy was reached; distinct = (families, run form, policy has fail, event position classes)."
 )
@@ -34,7 +34,7 @@ ASSUMPTIONS = [
 REAL = REAL_ALL
 STUB = STUB_ALL + ["pass-through wrappers recording that Fail._decide_match / Stopper._stop_me / ErrorHandler._handle_if executed (secondary monitor)"]
 
-FAMILIES = ["plain", "no", "fas", "onmatch", "after_stop", "after_skip", "when_false", "error", "error_vm_fail", "error_vm_nofail", "onmatch_rejected"]
+FAMILIES = ["plain", "no", "fas", "onmatch", "after_stop", "after_skip", "when_false", "error", "error_vm_fail", "error_vm_nofail", "onmatch_rejected", "fail_then_error"]
 PRE = 'push("bl", line_number()) push("b", valid()) push("bf", failed())'
 POST = 'push("al", line_number()) push("a", valid()) push("af", failed()) simprobe("p")'
 
@@ -58,6 +58,9 @@ def family_body(fam, K):
         return 'simfault("s")'
     if fam == "onmatch_rejected":
         return '#c == "NOPE" fail.onmatch()'
+    if fam == "fail_then_error":
+        # a fail() event and, on a later line, a handled error: the verdict must never come back
+        return f'line_number() == {K} -> fail() simfault("s")'
     raise ValueError(fam)
 
 
@@ -86,7 +89,7 @@ def generate(rng, i, tier):
     blanks = sorted(l for l in range(1, nrec) if rng.random() < 0.15)
     planted = sorted(l for l in range(1, nrec) if l not in blanks and rng.random() < 0.3)
     k = rng.randint(1, 4)
-    members = [{"fam": rng.choice(FAMILIES), "K": rng.randint(0, nrec)} for _ in range(k)]
+    members = [{"fam": rng.choice(FAMILIES), "K": rng.randint(0, nrec), "K2": rng.randint(0, nrec)} for _ in range(k)]
     return {
         "stratum": "A",
         "seed": rng.getrandbits(32),
@@ -146,6 +149,17 @@ def first_event(sc, m, lines):
         eff = pol_fail if fam == "error" else (fam == "error_vm_fail")
         hit = K in lines
         return (K if (hit and eff) else None), False, (K if (hit and pol_stop) else None)
+    if fam == "fail_then_error":
+        K2 = m.get("K2", K)
+        cut = K2 if (K2 in lines and pol_stop) else None
+        reach = [l for l in lines if cut is None or l <= cut]
+        f1 = K if K in reach else None
+        f2 = K2 if (K2 in reach and pol_fail) else None
+        if f1 is not None and (f2 is None or f1 <= f2):
+            return f1, True, cut
+        if f2 is not None:
+            return f2, False, cut
+        return None, True, cut
     return None, True, None
 
 
@@ -159,6 +173,7 @@ def execute(sc):
     k = len(members)
     exp = [first_event(sc, m, lines) for m in members]
     plan = [(f"m{j}", m["K"], "s") for j, m in enumerate(members) if m["fam"].startswith("error")]
+    plan += [(f"m{j}", m.get("K2", m["K"]), "s") for j, m in enumerate(members) if m["fam"] == "fail_then_error"]
     online = {"bad": None, "seen_false": {}, "checks": 0}
 
     def monitor(cp, identity, line, site):
